@@ -296,3 +296,15 @@ package mpt
 //@ opt callers trust
 //@ requires t != nil && t.refcount != nil && curr != nil
 //@ call newSubTrie requires[newleaf] arg2 == Node(v) && arg3
+
+// (C10) A lookup does not change the trie's content: walking a path may replace hash nodes by the
+// nodes loaded for them (the links of branch and extension nodes), it never writes a byte of any
+// key, value or path - in particular not into the spare capacity of an extension key that shares
+// its backing array with the keys of the batch that created it.
+//@ prop C10
+//@ func splitPath
+//@ inline
+//@ func (*Trie).getWithPath
+//@ may-panic
+//@ requires t != nil
+//@ modifies fields(BranchNode, Children), fields(ExtensionNode, next)
